@@ -3,7 +3,9 @@ package main
 // encoding/json contract stubs: uninterpreted encoders with round-trip axioms.
 
 import (
+	"encoding/json"
 	"fmt"
+	"sort"
 	"go/types"
 	"strings"
 
@@ -18,10 +20,34 @@ func liftIte(tt *TermTable, s *Term, f func(*Term) *Term) *Term {
 	return f(s)
 }
 
+// concreteMap parses a constant JSON text into (has, val) arrays.
+func concreteMap(tt *TermTable, text string) (*Term, *Term, bool) {
+	var m map[string]string
+	if err := json.Unmarshal([]byte(text), &m); err != nil {
+		return nil, nil, false
+	}
+	h, v := tt.ConstArr(SArrSB, tt.Bool(false)), tt.ConstArr(SArrSS, tt.Str(""))
+	keys := make([]string, 0, len(m))
+	for k := range m {
+		keys = append(keys, k)
+	}
+	sort.Strings(keys)
+	for _, k := range keys {
+		h = tt.Store(h, tt.Str(k), tt.Bool(true))
+		v = tt.Store(v, tt.Str(k), tt.Str(m[k]))
+	}
+	return h, v, true
+}
+
 func decMapHas(tt *TermTable, s *Term) *Term {
 	return liftIte(tt, s, func(s *Term) *Term {
 		if s.op == "uf:jenc_map" {
 			return s.args[0]
+		}
+		if c, ok := s.StrVal(); ok {
+			if h, _, ok := concreteMap(tt, c); ok {
+				return h
+			}
 		}
 		return tt.UF("jdec_map_has", SArrSB, s)
 	})
@@ -30,6 +56,11 @@ func decMapVal(tt *TermTable, s *Term) *Term {
 	return liftIte(tt, s, func(s *Term) *Term {
 		if s.op == "uf:jenc_map" {
 			return s.args[1]
+		}
+		if c, ok := s.StrVal(); ok {
+			if _, v, ok := concreteMap(tt, c); ok {
+				return v
+			}
 		}
 		return tt.UF("jdec_map_val", SArrSS, s)
 	})
@@ -42,6 +73,10 @@ func validMap(tt *TermTable, s *Term) *Term {
 		if s.op == "uf:jenc_map" || tt.validStr[s.id] == "map" {
 			return tt.Bool(true)
 		}
+		if c, ok := s.StrVal(); ok {
+			_, _, ok := concreteMap(tt, c)
+			return tt.Bool(ok)
+		}
 		return tt.UF("jvalid_map", SBool, s)
 	})
 }
@@ -51,6 +86,22 @@ func (ex *Exec) encMap(m *MapObj) *Term {
 	var h, v *Term
 	if m != nil && m.src != nil {
 		return m.src
+	}
+	if m == nil || (!m.opaq && allConstEntries(tt, m)) {
+		// a fully concrete map is marshalled to its real JSON text (sorted keys, as encoding/json does)
+		cm := map[string]string{}
+		if m != nil {
+			for _, k := range m.keys {
+				ks, _ := k.StrVal()
+				vs, _ := tt.Select(m.val, k).StrVal()
+				cm[ks] = vs
+			}
+		}
+		if m == nil {
+			return tt.Str("null")
+		}
+		b, _ := json.Marshal(cm)
+		return tt.Str(string(b))
 	}
 	if m == nil {
 		h, v = tt.ConstArr(SArrSB, tt.Bool(false)), tt.ConstArr(SArrSS, tt.Str(""))
@@ -72,6 +123,18 @@ func (ex *Exec) encMap(m *MapObj) *Term {
 		}
 	}
 	return e
+}
+
+func allConstEntries(tt *TermTable, m *MapObj) bool {
+	for _, k := range m.keys {
+		if _, ok := k.StrVal(); !ok {
+			return false
+		}
+		if _, ok := tt.Select(m.val, k).StrVal(); !ok {
+			return false
+		}
+	}
+	return true
 }
 
 // ---- struct codecs
